@@ -2,7 +2,11 @@ package main
 
 import (
 	"fmt"
+	"os"
+	"os/exec"
+	"path/filepath"
 	"strings"
+	"time"
 
 	evalfilter "github.com/skx/evalfilter/v2"
 	"github.com/skx/evalfilter/v2/object"
@@ -42,6 +46,9 @@ var c19Corpus = []string{
 	`function a() { return 1; } function b() { return 2; } function c() { return 3; } function d() { return 4; } return a() + b() + c() + d();`,
 	`x = {1.5: "a", "1.5": "b"}; hv(string(x)); return sprintf("%v|%v", x, keys(x));`,
 	`x = {false: 0, "false": 1, 0: 2, "0": 3}; t = ""; foreach k, v in x { t = t + string(v); } hv(t); return t;`,
+	`x = {hv2({1: 1, 2: 2, 3: 3}): 1, hv2({1: 1, 2: 2, 3: 4}): 2}; return len(x);`,
+	`function f(h) { return len(h); } x = {f({"a": 1, "b": 2, "c": 3}): hv2("p"), f({"a": 1, "b": 2, "d": 4}): hv2("q"), f({"z": 1}): hv2("r")}; return string(x);`,
+	`x = [{"b": hv2(1), "a": hv2(2)}, {"d": {"y": hv2(3), "x": hv2(4)}, "c": hv2(5)}]; return string(x);`,
 	`hv(id, Id, ID, url, URL, a, A, items, s, b); return string(id) + string(url) + string(iD);`,
 	`hv(M["key"], M["KEY"], M.key, keys(M)); foreach k, v in M { hv(k, v); } return len(M);`,
 	`x = {10: "ten", 2: "two", "1a": "str", 3.5: "f", "3.5": "s"}; hv(keys(x)); foreach k, v in x { hv(k); } return string(x);`,
@@ -56,6 +63,10 @@ func (p *c19) Enumerate(tier string) [][]int32 {
 				out = append(out, []int32{1, int32(i), int32(opt), int32(ob)})
 			}
 		}
+	}
+	// the shipped driver on every corpus script, in separate processes
+	for i := range c19Corpus {
+		out = append(out, []int32{7, 0, int32(i), int32(i % 2), int32(i % 2)})
 	}
 	return out
 }
@@ -245,10 +256,94 @@ func siteFunc(site string) string {
 	return site
 }
 
+// crossProcess runs the shipped driver (plain build of cmd/evalfilter, no
+// seam at all) several times on the same script and document: separate
+// processes have separate map-iteration seeds and address-space layouts, and
+// must print the same bytes.
+func (p *c19) crossProcess(c *verifsim.Chooser, st *Stats, render bool) *Outcome {
+	o := &Outcome{}
+	bin := os.Getenv("VERIF_DRIVER_REAL")
+	if bin == "" {
+		o.violate("C19/harness", "no-driver", "VERIF_DRIVER_REAL is not set")
+		return o
+	}
+	var text string
+	if c.Intn(3) == 0 {
+		text = c19Corpus[c.Intn(len(c19Corpus))]
+	} else {
+		text = GenScript(c, GenCfg{Funcs: true, Hashes: true, TieKeys: true, Prints: true, MaxStmts: 7}).Text
+	}
+	// host functions do not exist in the driver: use built-ins instead
+	text = strings.NewReplacer("hv2(", "string(", "hv(", "print(", "h(", "string(", "maybe()", "true").Replace(text)
+	doc := []string{
+		`{"A":2,"B":1,"C":3,"S":"hall","Items":[3,1,2],"M":{"b":1,"a":"x","c":[1,"z"],"d":{"y":1,"x":2},"1":true,"one":1}}`,
+		`{"ID":1,"Id":2,"iD":3,"URL":"upper","Url":"mixed","a":10,"A":20,"M":{"Key":1,"KEY":2,"key":3},"S":"x","s":"y","B":1,"b":2,"C":3,"Items":[1,2]}`,
+	}[c.Intn(2)]
+	noOpt := c.Intn(2) == 1
+	currentDesc.Store("cross-process driver determinism")
+	o.Digest.Str("xproc" + text + doc)
+	dir, err := os.MkdirTemp(os.Getenv("VERIF_TMP"), "c19-")
+	if err != nil {
+		o.violate("C19/harness", "tmpdir", "%v", err)
+		return o
+	}
+	defer os.RemoveAll(dir)
+	os.WriteFile(filepath.Join(dir, "s.in"), []byte(text), 0o644)
+	os.WriteFile(filepath.Join(dir, "d.json"), []byte(doc), 0o644)
+	runDrv := func(args ...string) string {
+		cmd := exec.Command(bin, args...)
+		cmd.Dir = dir
+		done := make(chan []byte, 1)
+		go func() { b, _ := cmd.CombinedOutput(); done <- b }()
+		select {
+		case b := <-done:
+			return string(b)
+		case <-time.After(20 * time.Second):
+			if cmd.Process != nil {
+				cmd.Process.Kill()
+			}
+			return "<driver did not finish>"
+		}
+	}
+	bcArgs := []string{"bytecode"}
+	runArgs := []string{"run", "-timeout", "2s", "-json", "d.json"}
+	if noOpt {
+		bcArgs = append(bcArgs, "-no-optimizer")
+		runArgs = append(runArgs, "-no-optimizer")
+	}
+	bcArgs = append(bcArgs, "s.in")
+	runArgs = append(runArgs, "s.in")
+	o.Nontrivial = true
+	st.fault("fresh-process-pairs")
+	var bc0, run0 string
+	for i := 0; i < 3; i++ {
+		bc, rn := runDrv(bcArgs...), runDrv(runArgs...)
+		if i == 0 {
+			bc0, run0 = bc, rn
+			if render {
+				o.Sample = map[string]interface{}{"mode": "shipped driver in separate processes", "script": text, "json": doc, "bytecode_args": bcArgs, "run_args": runArgs, "run_output": clip(rn, 400)}
+			}
+			continue
+		}
+		if bc != bc0 {
+			o.violate("C19/cross-process", "bytecode-output", "`evalfilter %s` printed different programs in two processes:\n%s", strings.Join(bcArgs, " "), firstDiff(bc0, bc))
+			break
+		}
+		if rn != run0 && !strings.Contains(rn+run0, "timeout") {
+			o.violate("C19/cross-process", "run-output", "`evalfilter %s` printed different output in two processes:\n%s", strings.Join(runArgs, " "), firstDiff(run0, rn))
+			break
+		}
+	}
+	return o
+}
+
 func (p *c19) Run(c *verifsim.Chooser, st *Stats, render bool) *Outcome {
 	o := &Outcome{}
 	cs := &c19Case{}
-	mode := c.Intn(2)
+	mode := []int{0, 1, 0, 0, 0, 0, 0, 2, 0, 0}[c.Intn(10)]
+	if mode == 2 {
+		return p.crossProcess(c, st, render)
+	}
 	if mode == 1 {
 		cs.text = c19Corpus[c.Intn(len(c19Corpus))]
 		cs.opt = c.Intn(2) == 0
